@@ -153,7 +153,7 @@ def run(ctx, n_override=None):
                 'elided amount) x variants: transactions permuted (all permutations for <= 4 transactions in the thorough tier, sampled '
                 'otherwise), postings permuted inside every transaction, the file cut into 1-4 files with include directives incl. a '
                 'nested directory; non-trivial = the variant differs from the base in order or layout; distinct by (base text, variant)')
-    n = n_override or ctx.scale(60, 1200)
+    n = n_override or ctx.scale(60, 450)
     for j in range(n):
         base = gen_base(rng)
         variants = [('base', list(base), False)]
